@@ -5,17 +5,17 @@
 set -u
 export GOFLAGS=-mod=mod GOPROXY=off GOSUMDB=off GOTOOLCHAIN=local
 src=$(realpath "$1"); target=$2; shift 2
-wt=/tmp/wt/confirm
+wt=$(mktemp -d /tmp/wtconfirm.XXXXXX); L=$wt.log; trap 'rm -f $L' EXIT
 git -C /repo worktree remove --force $wt >/dev/null 2>&1
 git -C /repo worktree add -q --detach $wt HEAD || exit 3
 cd $wt
 putdemo() { for f in "$src"/*_test.go; do cp "$f" "$target/zz_$(basename $f)"; done; }
 rmdemo() { rm -f "$target"/zz_*_test.go; }
 putdemo
-if timeout 600 go test -vet=off -count=1 "$@" >/tmp/confirm.log 2>&1; then echo "demo without change: PASS"; else echo "demo without change: FAIL (bad demo)"; tail -5 /tmp/confirm.log; fi
+if timeout 600 go test -vet=off -count=1 "$@" >$L 2>&1; then echo "demo without change: PASS"; else echo "demo without change: FAIL (bad demo)"; tail -5 $L; fi
 rmdemo
 if ! git apply "$src/patch.diff"; then echo "patch does not apply to HEAD"; fi
-if go test -vet=off -count=1 ./... >/tmp/confirm.log 2>&1; then echo "suite with change: PASS ($(grep -c '^ok' /tmp/confirm.log) packages ok)"; else echo "suite with change: FAIL"; grep FAIL /tmp/confirm.log | head -3; fi
+if go test -vet=off -count=1 ./... >$L 2>&1; then echo "suite with change: PASS ($(grep -c '^ok' $L) packages ok)"; else echo "suite with change: FAIL"; grep FAIL $L | head -3; fi
 putdemo
-if timeout 600 go test -vet=off -count=1 "$@" >/tmp/confirm.log 2>&1; then echo "demo with change: PASS (change not demonstrated)"; else echo "demo with change: FAIL (as required)"; grep -m2 -i 'fail\|error\|---' /tmp/confirm.log | cut -c1-200; fi
+if timeout 600 go test -vet=off -count=1 "$@" >$L 2>&1; then echo "demo with change: PASS (change not demonstrated)"; else echo "demo with change: FAIL (as required)"; grep -m2 -i 'fail\|error\|---' $L | cut -c1-200; fi
 cd /; git -C /repo worktree remove --force $wt
